@@ -135,6 +135,15 @@ func (w *world) build() {
 type reqSpec struct {
 	host, path, rawq, frag string
 	https                  bool
+	xfh                    string // X-Forwarded-Host ("" = absent)
+}
+
+// effHost is the host the handler works with (X-Forwarded-Host wins over Host)
+func (q reqSpec) effHost() string {
+	if q.xfh != "" {
+		return q.xfh
+	}
+	return q.host
 }
 
 type outcome struct {
@@ -151,6 +160,9 @@ func (w *world) do(q reqSpec) outcome {
 	req.RequestURI = ""
 	if q.https {
 		req.Header.Set("X-Forwarded-Proto", "https")
+	}
+	if q.xfh != "" {
+		req.Header.Set("X-Forwarded-Host", q.xfh)
 	}
 	w.last = nil
 	rec := httptest.NewRecorder()
@@ -255,15 +267,21 @@ func (t *tables) add(s string, depth int) {
 
 func buildTables(be *backend, q reqSpec) string {
 	t := &tables{be: be, entries: map[string]bool{}, cands: map[string]bool{}}
-	t.add(q.host, 0)
-	if h, _, err := net.SplitHostPort(q.host); err == nil {
-		t.add(h, 0)
+	hosts := []string{q.host}
+	if q.xfh != "" {
+		hosts = append(hosts, q.xfh)
 	}
-	labels := strings.Split(q.host, ".")
-	for k := 1; k < len(labels); k++ {
-		switch labels[k] {
-		case "ipfs", "ipns", "p2p", "ipld":
-			t.add(strings.Join(labels[:k], "."), 0)
+	for _, host := range hosts {
+		t.add(host, 0)
+		if h, _, err := net.SplitHostPort(host); err == nil {
+			t.add(h, 0)
+		}
+		labels := strings.Split(host, ".")
+		for k := 1; k < len(labels); k++ {
+			switch labels[k] {
+			case "ipfs", "ipns", "p2p", "ipld":
+				t.add(strings.Join(labels[:k], "."), 0)
+			}
 		}
 	}
 	parts := strings.SplitN(q.path, "/", 4)
@@ -430,7 +448,7 @@ func (w *world) apply(line string) bool {
 }
 
 func (q reqSpec) line(be *backend) string {
-	return strings.TrimSpace(fmt.Sprintf("req %s %s %s %s %d %s", hexs(q.host), hexs(q.path), hexs(q.rawq), hexs(q.frag), b2i(q.https), buildTables(be, q)))
+	return strings.TrimSpace(fmt.Sprintf("req %s %s %s %s %s %d %s", hexs(q.host), hexs(q.xfh), hexs(q.path), hexs(q.rawq), hexs(q.frag), b2i(q.https), buildTables(be, q)))
 }
 
 func gen(r *vh.Rand, tier string, n int, emit func(vh.Case)) {
@@ -483,6 +501,19 @@ func gen(r *vh.Rand, tier string, n int, emit func(vh.Case)) {
 		if cr.Chance(1, 6) {
 			add("dns " + hexs(vh.Pick(cr, []string{"ipfs.io", "dweb.link", "foo.wild.test"})))
 		}
+		// gateway hostnames that are DNSLink websites themselves
+		for _, g := range gws {
+			if cr.Chance(1, 2) {
+				h := g.host
+				if strings.HasPrefix(h, "*.") {
+					h = "foo" + h[1:]
+				}
+				if hh, _, err := net.SplitHostPort(h); err == nil {
+					h = hh
+				}
+				add("dns " + hexs(h))
+			}
+		}
 		nreq := cr.Range(3, 8)
 		for j := 0; j < nreq; j++ {
 			g := vh.Pick(cr, gws)
@@ -502,7 +533,13 @@ func gen(r *vh.Rand, tier string, n int, emit func(vh.Case)) {
 			}
 			ns := vh.Pick(cr, []string{"ipfs", "ipfs", "ipns", "ipns", "ipns", "p2p", "ipld", "other"})
 			id := genID(cr, names)
-			switch cr.Intn(10) {
+			switch cr.Intn(12) {
+			case 10, 11: // a path the gateway does not handle, on a gateway / DNSLink host, with or without port
+				q.host = vh.Pick(cr, append([]string{gwHost, gwHost, "unknown.example"}, names...))
+				if cr.Bool() && !strings.Contains(q.host, ":") {
+					q.host += vh.Pick(cr, []string{":8080", ":443", ":1"})
+				}
+				q.path = vh.Pick(cr, []string{"/", "/docs/index.html", "/other/x", "/version", "/ipfsx/a"}) + vh.Pick(cr, []string{"", "", "/b c"})
 			case 0, 1, 2, 3, 4: // path request on a gateway host
 				q.host = gwHost
 				q.path = "/" + ns + "/" + id + genRest(cr)
@@ -527,6 +564,13 @@ func gen(r *vh.Rand, tier string, n int, emit func(vh.Case)) {
 			default: // lower-cased host as a browser would send it
 				q.host = strings.ToLower(id) + "." + ns + "." + gwHost
 				q.path = "/"
+			}
+			if cr.Chance(1, 7) { // behind a reverse proxy: the public host arrives in X-Forwarded-Host
+				q.xfh = q.host
+				q.host = vh.Pick(cr, []string{"internal.proxy:9000", "10.0.0.1", "backend"})
+				if cr.Chance(1, 6) {
+					q.host = q.xfh // both present and equal
+				}
 			}
 			c.Ops = append(c.Ops, q.line(w.be))
 			// follow redirects with further (diffed) requests
@@ -624,6 +668,14 @@ func monitorRoundTrip(o *vh.Out, w *world, q reqSpec, first outcome) {
 		o.Fail("redirect-dead-end", "%q → %s answered %d", q.path, first.loc, out.status)
 		return
 	}
+	// the same last request arriving through a reverse proxy (public host in X-Forwarded-Host) must be served alike
+	if pq := (reqSpec{host: "internal.proxy:9000", xfh: cur.host, path: cur.path, rawq: cur.rawq, https: cur.https}); cur.host != "" {
+		if o2 := w.do(pq); o2.String() != out.String() {
+			o.Fail("roundtrip-via-x-forwarded-host-differs", "%s%s: direct %s, via X-Forwarded-Host %s", cur.host, cur.path, out.String(), o2.String())
+		}
+		w.do(cur) // restore w.last for the checks below
+		out = w.do(cur)
+	}
 	got := strings.SplitN(out.seen.path, "/", 4)
 	if len(got) < 3 || got[1] != ns {
 		o.Fail("roundtrip-namespace", "%q came back as %q", q.path, out.seen.path)
@@ -654,6 +706,40 @@ func monitorRoundTrip(o *vh.Out, w *world, q reqSpec, first outcome) {
 		if got[2] != id {
 			o.Fail("roundtrip-dnslink-name", "%q came back as %q", q.path, out.seen.path)
 		}
+	}
+}
+
+// monitor: a host mapped to a DNSLink content path. The name in the path must be the DNSLink name the
+// record was looked up under: the effective host (Host, or X-Forwarded-Host) without its port — for
+// known-gateway hostnames and unknown hostnames alike — followed by the request path, unchanged.
+func monitorDNSLinkHost(o *vh.Out, w *world, q reqSpec, out outcome) {
+	eff := q.effHost()
+	name := eff
+	if h, _, err := net.SplitHostPort(eff); err == nil {
+		name = h
+	}
+	if eff != name {
+		o.Kind("dnslink-host-with-port")
+	}
+	if q.xfh != "" {
+		o.Kind("dnslink-via-x-forwarded-host")
+	}
+	if _, known := w.cfg.PublicGateways[eff]; known {
+		o.Kind("dnslink-on-known-gateway")
+	} else if _, known := w.cfg.PublicGateways[name]; known {
+		o.Kind("dnslink-on-known-gateway")
+	}
+	if !w.be.dns[name] {
+		o.Fail("dnslink-without-record", "host %q served as DNSLink %q but %q has no DNSLink record", eff, out.seen.path, name)
+	}
+	if want := "/ipns/" + name + q.path; out.seen.path != want {
+		o.Fail("dnslink-name-not-looked-up-name", "host %q (DNSLink name %q) mapped to %q, want %q", eff, name, out.seen.path, want)
+	}
+	if out.seen.host != eff {
+		o.Fail("dnslink-context-host", "context host %q, effective host %q", out.seen.host, eff)
+	}
+	if out.seen.rawq != q.rawq {
+		o.Fail("dnslink-query-changed", "query %q came through as %q", q.rawq, out.seen.rawq)
 	}
 }
 
@@ -699,10 +785,10 @@ func exec(c vh.Case, o *vh.Out) {
 				o.Fail("uninline-not-injective", "Inline(Uninline(%q)) = %q", l, inlineRef(n))
 			}
 			o.Emit("%s", hexs(n))
-		case f[0] == "req" && len(f) >= 6:
-			q := reqSpec{host: string(vh.UnHex(f[1])), path: string(vh.UnHex(f[2])), rawq: string(vh.UnHex(f[3])), frag: string(vh.UnHex(f[4])), https: f[5] == "1"}
+		case f[0] == "req" && len(f) >= 7:
+			q := reqSpec{host: string(vh.UnHex(f[1])), xfh: string(vh.UnHex(f[2])), path: string(vh.UnHex(f[3])), rawq: string(vh.UnHex(f[4])), frag: string(vh.UnHex(f[5])), https: f[6] == "1"}
 			// the tables in the op line are parameters of the model: they must be what the real functions say
-			if want := buildTables(w.be, q); want != strings.Join(f[6:], " ") {
+			if want := buildTables(w.be, q); want != strings.Join(f[7:], " ") {
 				o.Emit("bad-tables")
 				continue
 			}
@@ -710,11 +796,19 @@ func exec(c vh.Case, o *vh.Out) {
 			// a path → subdomain redirect: Location host = <id>.<ns>.<request host>
 			isGw := false
 			if pp := strings.SplitN(q.path, "/", 4); len(pp) >= 3 && out.loc != nil {
-				isGw = strings.HasSuffix(out.loc.Host, "."+pp[1]+"."+q.host)
+				isGw = strings.HasSuffix(out.loc.Host, "."+pp[1]+"."+q.effHost())
 			}
 			switch {
 			case out.status == 301:
 				o.Kind("redirect")
+				// a redirect to the very URL that was requested never ends: the content is not served
+				if out.loc != nil && out.loc.Host == q.effHost() && out.loc.Path == q.path && out.loc.RawQuery == q.rawq && (out.loc.Scheme == "https") == q.https {
+					if q.xfh != "" && q.xfh != q.host {
+						o.Fail("self-redirect-x-forwarded-host", "Host %q X-Forwarded-Host %q path %q redirected to itself (%s)", q.host, q.xfh, q.path, out.loc)
+					} else {
+						o.Fail("self-redirect", "host %q path %q redirected to itself (%s)", q.host, q.path, out.loc)
+					}
+				}
 				if isGw {
 					monitorRoundTrip(o, w, q, out)
 					o.Nontrivial()
@@ -724,6 +818,9 @@ func exec(c vh.Case, o *vh.Out) {
 				}
 			case out.seen != nil:
 				o.Kind("next-" + out.seen.kind)
+				if out.seen.kind == "dnslink" {
+					monitorDNSLinkHost(o, w, q, out)
+				}
 				if out.seen.kind == "subdomain" {
 					parts := strings.SplitN(out.seen.path, "/", 4)
 					if len(parts) >= 3 && parts[1] == "ipns" && strings.Contains(parts[2], ".") && !strings.Contains(strings.SplitN(q.host, ".ipns.", 2)[0], ".") {
@@ -785,6 +882,20 @@ func corpus() {
 		{host: "dweb.link", path: "/ipns/my-host/x"},
 		{host: "dweb.link", path: "/ipns/en-wikipedia--on--ipfs-org/wiki/"},
 		{host: "en.wikipedia-on-ipfs.org", path: "/wiki/"},
+	})
+	gwnet := gwSpec{host: "gw.example.net", paths: []string{"/ipfs", "/ipns"}, us: true}.line()
+	emit("dnslink-host-with-port", []string{gwnet, "dns " + hexs("gw.example.net"), "dns " + hexs("site.example.org")}, []reqSpec{
+		{host: "gw.example.net", path: "/docs/index.html"},
+		{host: "gw.example.net:8080", path: "/docs/index.html"},
+		{host: "internal:9000", xfh: "gw.example.net:8443", path: "/docs/index.html", rawq: "x=1"},
+		{host: "site.example.org:8080", path: "/a/b"},
+		{host: "internal:9000", xfh: "site.example.org:8080", path: "/a/b"},
+		{host: "internal:9000", xfh: "gw.example.net", path: "/ipfs/bafybeigdyrzt5sfp7udm7hu76uh7y26nf3efuylqabf3oclgtqy55fbzdi/x"},
+	})
+	emit("x-forwarded-host-subdomain", []string{gwnet}, []reqSpec{
+		{host: "internal.proxy:9000", xfh: "bafkreidgumpb6dyyd7fnrtrbuvmlvqmxqdpg57xxpkr3fb43zplcsyaghy.ipfs.gw.example.net", path: "/"},
+		{host: "bafkreidgumpb6dyyd7fnrtrbuvmlvqmxqdpg57xxpkr3fb43zplcsyaghy.ipfs.gw.example.net", path: "/"},
+		{host: "backend", xfh: "gw.example.net", path: "/ipfs/" + c0 + "/a", https: true},
 	})
 	emit("peer-ids", []string{dweb}, []reqSpec{
 		{host: "dweb.link", path: "/ipns/12D3KooWRBy97UB99e3J6hiPesre1MZeuNQvfan4gBziswrRJsNK/x"},
